@@ -505,6 +505,10 @@ func (x *Decimal) Float32() (float32, Accuracy) {
 	if a == big.Exact {
 		a = z.Acc()
 	}
+	if x.form == finite && (f == 0 || math.IsInf(float64(f), 0)) {
+		// finite x saturated to ±0 or ±Inf: never exact
+		a = big.Accuracy(makeAcc(x.neg == (f == 0)))
+	}
 	return f, Accuracy(a)
 }
 
@@ -519,6 +523,10 @@ func (x *Decimal) Float64() (float64, Accuracy) {
 	// If big.Float -> float64 conversion is accurate, use Decimal->Float accuracy.
 	if a == big.Exact {
 		a = z.Acc()
+	}
+	if x.form == finite && (f == 0 || math.IsInf(f, 0)) {
+		// finite x saturated to ±0 or ±Inf: never exact
+		a = big.Accuracy(makeAcc(x.neg == (f == 0)))
 	}
 	return f, Accuracy(a)
 }
